@@ -22,6 +22,13 @@ package main
 // (counts summed over the pools) pp=<fired>:<disc>:<bad>,... per pool, in the order of the config
 //
 // given=<a>,<b>,...: the k-th pool section gets the k-th value (none = the option is left out of that section).
+//
+// inst=<n> (round 4): n instances per pool (startup once(n)); perinst=1: `rps-per-instance: true` (every instance its own once(N):
+// total = N*n per pool). With a shared once(N) and answers of >= 700 ms every instance fires at most 3 tokens that are less than 2 s
+// late, so N > 3n leaves tokens that must be discarded.
+// fmt=cwd: the config is ./load.yaml in the working directory and pandora gets NO argument (the default search); fmt=noext: the
+// config file has no extension (read as yaml).
+// why=option-rejected: the process exited non-zero saying "Config decode failed" and naming discard_overflow.
 
 import (
 	"bytes"
@@ -75,7 +82,7 @@ func runProc(m map[string]string) string {
 	bin, berr := buildPandora()
 	times, _ := strconv.Atoi(m["times"])
 	if m["rps"] == "mix" {
-		if f := m["fmt"]; f != "" && f != "yaml" && f != "stdin" {
+		if f := m["fmt"]; f != "" && f != "yaml" && f != "stdin" && f != "cwd" && f != "noext" {
 			return "BADINPUT"
 		}
 		times = 9
@@ -108,6 +115,15 @@ func runProc(m map[string]string) string {
 	if pools < 1 {
 		pools = 1
 	}
+	// inst=<n>: n instances per pool (startup once(n)); perinst=1: `rps-per-instance: true`, every instance has the whole profile
+	inst, _ := strconv.Atoi(m["inst"])
+	if inst < 1 {
+		inst = 1
+	}
+	perPool := times
+	if m["perinst"] == "1" {
+		perPool = times * inst
+	}
 	var phouts []string
 	for k := 0; k < pools; k++ {
 		phouts = append(phouts, filepath.Join(dir, fmt.Sprintf("phout%d.log", k)))
@@ -117,6 +133,10 @@ func runProc(m map[string]string) string {
 		return "BADINPUT"
 	}
 	cfgPath := filepath.Join(dir, "load."+ext)
+	if m["fmt"] == "noext" {
+		// a config file without an extension is read as yaml
+		cfgPath = filepath.Join(dir, "c04load")
+	}
 	if err := os.WriteFile(cfgPath, []byte(cfg), 0o644); err != nil {
 		return fmt.Sprintf("rc=config total=%d fired=0 disc=0 bad=0 served=0 mindisc=0 recv=0 errs=0 pp=-", times)
 	}
@@ -124,6 +144,10 @@ func runProc(m map[string]string) string {
 	defer cancel()
 	var stderr bytes.Buffer
 	cmd := exec.CommandContext(ctx, bin, cfgPath)
+	if m["fmt"] == "cwd" {
+		// no argument at all: pandora looks for ./load.yaml (cmd.Dir is the directory the config was written to)
+		cmd = exec.CommandContext(ctx, bin)
+	}
 	if m["fmt"] == "stdin" {
 		// `pandora -`: the (yaml) config is read from standard input
 		cmd = exec.CommandContext(ctx, bin, "-")
@@ -132,12 +156,17 @@ func runProc(m map[string]string) string {
 	cmd.Dir = dir
 	cmd.Stderr = &stderr
 	cmd.Stdout = &stderr
-	rc := "0"
+	rc, why := "0", "-"
 	if err := cmd.Run(); err != nil {
 		if ctx.Err() != nil {
 			rc = "timeout"
 		} else if ee, ok := err.(*exec.ExitError); ok {
 			rc = strconv.Itoa(ee.ExitCode())
+			// the config was written by this driver and is valid: a process that refuses to DECODE it and names the option in
+			// its complaint has rejected the (defaulted or documented) discard_overflow key
+			if e := strings.ToLower(stderr.String()); strings.Contains(e, "config decode failed") && strings.Contains(e, "discard_overflow") {
+				why = "option-rejected"
+			}
 		} else {
 			rc = "start"
 		}
@@ -178,7 +207,7 @@ func runProc(m map[string]string) string {
 		}
 		pp = append(pp, fmt.Sprintf("%d:%d:%d", fired-f0, pd, bad-b0))
 	}
-	return fmt.Sprintf("rc=%s total=%d fired=%d disc=%d bad=%d served=%d mindisc=%d recv=%d errs=%d pp=%s", rc, times*pools, fired, disc, bad, served.Load(), mindisc, recv.Load(), errs, strings.Join(pp, ","))
+	return fmt.Sprintf("rc=%s total=%d fired=%d disc=%d bad=%d served=%d mindisc=%d recv=%d errs=%d pp=%s why=%s", rc, perPool*pools, fired, disc, bad, served.Load(), mindisc, recv.Load(), errs, strings.Join(pp, ","), why)
 }
 
 // procConfig renders the config of one proc case: `pools` identical pool sections (each with its own phout file) in the
@@ -186,6 +215,11 @@ func runProc(m map[string]string) string {
 // given=false writes it; key=upper writes the option's key in upper case (config keys are case-insensitive). anchor=1 (yaml):
 // the second and later pool sections are the first one taken over through a yaml merge key (`<<: *p0`).
 func procConfig(m map[string]string, target string, phouts []string, times int) (string, string) {
+	inst, _ := strconv.Atoi(m["inst"])
+	if inst < 1 {
+		inst = 1
+	}
+	perinst := m["perinst"] == "1"
 	key := "discard_overflow"
 	if m["key"] == "upper" {
 		key = "DISCARD_OVERFLOW"
@@ -207,7 +241,7 @@ func procConfig(m map[string]string, target string, phouts []string, times int) 
 		return givens[k]
 	}
 	switch m["fmt"] {
-	case "", "yaml", "stdin":
+	case "", "yaml", "stdin", "cwd", "noext":
 		rps := fmt.Sprintf("      type: once\n      times: %d\n", times)
 		if m["rps"] == "mix" {
 			// one token at the start, then 2 per second for 4 s: with answers slower than 1 s the instance alternates between
@@ -219,6 +253,9 @@ func procConfig(m map[string]string, target string, phouts []string, times int) 
 			opt := ""
 			if given := givenOf(k); given != "none" {
 				opt = fmt.Sprintf("    %s: %s\n", key, given)
+			}
+			if perinst {
+				opt += "    rps-per-instance: true\n"
 			}
 			if m["anchor"] == "1" && k > 0 {
 				// the section is the first one (merge key) with its own id and result file
@@ -244,8 +281,8 @@ func procConfig(m map[string]string, target string, phouts []string, times int) 
     rps:
 %s    startup:
       type: once
-      times: 1
-`, target, phout, rps) + opt
+      times: %d
+`, target, phout, rps, inst) + opt
 		}
 		cfg += "log:\n  level: error\n"
 		return cfg, "yaml"
@@ -258,7 +295,10 @@ func procConfig(m map[string]string, target string, phouts []string, times int) 
 				"ammo":    map[string]any{"type": "uri", "uris": []string{"/c04 tagC04"}},
 				"result":  map[string]any{"type": "phout", "destination": phout},
 				"rps":     map[string]any{"type": "once", "times": times},
-				"startup": map[string]any{"type": "once", "times": 1},
+				"startup": map[string]any{"type": "once", "times": inst},
+			}
+			if perinst {
+				p["rps-per-instance"] = true
 			}
 			if given := givenOf(k); given != "none" {
 				p[key] = given == "true"
@@ -277,9 +317,12 @@ func procConfig(m map[string]string, target string, phouts []string, times int) 
 			if given := givenOf(k); given != "none" {
 				cfg += fmt.Sprintf("%s = %s\n", key, given)
 			}
+			if perinst {
+				cfg += "rps-per-instance = true\n"
+			}
 			cfg += fmt.Sprintf("[pools.gun]\ntype = \"http\"\ntarget = %q\n[pools.ammo]\ntype = \"uri\"\nuris = [\"/c04 tagC04\"]\n"+
-				"[pools.result]\ntype = \"phout\"\ndestination = %q\n[pools.rps]\ntype = \"once\"\ntimes = %d\n[pools.startup]\ntype = \"once\"\ntimes = 1\n",
-				target, phout, times)
+				"[pools.result]\ntype = \"phout\"\ndestination = %q\n[pools.rps]\ntype = \"once\"\ntimes = %d\n[pools.startup]\ntype = \"once\"\ntimes = %d\n",
+				target, phout, times, inst)
 		}
 		return cfg, "toml"
 	}
